@@ -18,17 +18,20 @@ def sh(cmd, cwd=None, timeout=1800):
 
 
 def main():
-    ap = argparse.ArgumentParser(); ap.add_argument('sid'); ap.add_argument('wt'); ap.add_argument('--props'); ap.add_argument('--skip-demo', action='store_true')
+    ap = argparse.ArgumentParser(); ap.add_argument('sid'); ap.add_argument('wt'); ap.add_argument('--props'); ap.add_argument('--skip-demo', action='store_true'); ap.add_argument('--recheck', action='store_true', help='only re-run the checks against seeded/<id>/patch.diff')
+    ap.add_argument('--property'); ap.add_argument('--change'); ap.add_argument('--needs')
     a = ap.parse_args()
     wt = a.wt; seed = os.path.join(wt, 'SEED')
     log = {}
-    if not os.path.exists(os.path.join(seed, 'patch.diff')): sys.exit('no SEED/patch.diff')
+    if a.recheck: seed = os.path.join(VERIF, 'seeded', a.sid)
+    if not os.path.exists(os.path.join(seed, 'patch.diff')): sys.exit('no patch.diff')
     # 1. confirm
-    rc, out = sh(f'python3 {VERIF}/tools/baseline.py {wt}')
-    log['suite_with_change'] = out.strip().splitlines()[0] if out.strip() else ''
-    suite_ok = rc == 0
-    demo_changed = demo_orig = None
-    if not a.skip_demo:
+    suite_ok = True; demo_changed = demo_orig = None
+    if not a.recheck:
+        rc, out = sh(f'python3 {VERIF}/tools/baseline.py {wt}')
+        log['suite_with_change'] = out.strip().splitlines()[0] if out.strip() else ''
+        suite_ok = rc == 0
+    if not a.skip_demo and not a.recheck:
         sh('make clean >/dev/null 2>&1; make >/dev/null 2>&1', cwd=wt)
         rc1, o1 = sh('bash SEED/run.sh', cwd=wt, timeout=600)
         demo_changed = rc1; log['demo_changed_tail'] = o1[-600:]
@@ -61,10 +64,15 @@ def main():
     if not fired: print('  NO CHECK FIRED')
     # 3. store
     dst = os.path.join(VERIF, 'seeded', a.sid); os.makedirs(dst, exist_ok=True)
-    for f in os.listdir(seed):
+    for f in ([] if a.recheck else os.listdir(seed)):
         if os.path.isfile(os.path.join(seed, f)) and os.path.getsize(os.path.join(seed, f)) < 200000 and not f.endswith(('.o', '.bin')) and '.' in f: shutil.copy(os.path.join(seed, f), dst)
     meta_path = os.path.join(dst, 'meta.json')
     meta = json.load(open(meta_path)) if os.path.exists(meta_path) else {}
+    for k in ('property', 'change', 'needs'):
+        if getattr(a, k): meta[k] = getattr(a, k)
+    if a.recheck:
+        meta['checks_fired'] = fired
+        json.dump(meta, open(meta_path, 'w'), indent=1); print('rechecked', dst); return
     meta.update({'seed_id': a.sid, 'confirmed': confirmed, 'suite_still_passes': suite_ok, 'demo_exit_changed_tree': demo_changed, 'demo_exit_original_tree': demo_orig,
                  'ran': ['tools/baseline.py <worktree> (make clean all check, 114 baseline names)', 'SEED/run.sh on the changed and on the original tree (git stash), rebuilt each time',
                          'git -C /repo apply patch.diff; ./check <every property>; git -C /repo checkout -- .'],
